@@ -52,6 +52,47 @@ impl AsyncRead for ScriptedReader {
     }
 }
 
+thread_local! {
+    /// at most this many bytes are accepted per `write` by the sinks of `drive_conn` (None: everything)
+    static WRITE_LIMIT: std::cell::Cell<Option<usize>> = const { std::cell::Cell::new(None) };
+}
+/// Sets the per-write acceptance limit of the response sink on this thread; returns the previous one.
+pub fn set_write_limit(limit: Option<usize>) -> Option<usize> {
+    WRITE_LIMIT.with(|c| c.replace(limit.map(|n| n.max(1))))
+}
+
+/// An `AsyncWrite` that accepts at most `limit` bytes per call (a socket whose send buffer is nearly full): a caller
+/// that ignores the returned count loses bytes here, as it would on a real connection.
+pub struct ChoppySink {
+    pub out: Vec<u8>,
+    pub limit: Option<usize>,
+    pub short_writes: usize,
+}
+impl ChoppySink {
+    pub fn new() -> Self {
+        ChoppySink { out: Vec::new(), limit: WRITE_LIMIT.with(|c| c.get()), short_writes: 0 }
+    }
+}
+impl tokio::io::AsyncWrite for ChoppySink {
+    fn poll_write(mut self: Pin<&mut Self>, _cx: &mut Context<'_>, buf: &[u8]) -> Poll<std::io::Result<usize>> {
+        let n = match self.limit {
+            Some(l) if l < buf.len() => {
+                self.short_writes += 1;
+                l
+            }
+            _ => buf.len(),
+        };
+        self.out.extend_from_slice(&buf[..n]);
+        Poll::Ready(Ok(n))
+    }
+    fn poll_flush(self: Pin<&mut Self>, _cx: &mut Context<'_>) -> Poll<std::io::Result<()>> {
+        Poll::Ready(Ok(()))
+    }
+    fn poll_shutdown(self: Pin<&mut Self>, _cx: &mut Context<'_>) -> Poll<std::io::Result<()>> {
+        Poll::Ready(Ok(()))
+    }
+}
+
 #[derive(Debug, Clone, PartialEq)]
 pub enum ReadOutcome {
     /// `Ok(Some(()))`: a request was parsed and handled
@@ -84,9 +125,9 @@ pub fn drive_conn(router: &VerifRouter, reader: &mut ScriptedReader, max_exchang
                 let close = matches!(req.get().headers.Connection(), Some("close" | "Close"));
                 let res = block_on(router.handle(&mut req)).map_err(|e| format!("handle: {e}"))?;
                 let declared = ohkami::__verif__::declared_size(&res);
-                let mut wire = Vec::new();
-                let _ = block_on(send(res, &mut wire)).map_err(|e| format!("send: {e}"))?;
-                out.push(Exchange { outcome: ReadOutcome::Handled, wire, declared: Some(declared) });
+                let mut sink = ChoppySink::new();
+                let _ = block_on(send(res, &mut sink)).map_err(|e| format!("send: {e}"))?;
+                out.push(Exchange { outcome: ReadOutcome::Handled, wire: sink.out, declared: Some(declared) });
                 if close {
                     break;
                 }
@@ -97,9 +138,9 @@ pub fn drive_conn(router: &VerifRouter, reader: &mut ScriptedReader, max_exchang
             }
             Err(res) => {
                 let declared = ohkami::__verif__::declared_size(&res);
-                let mut wire = Vec::new();
-                let _ = block_on(send(res, &mut wire)).map_err(|e| format!("send: {e}"))?;
-                out.push(Exchange { outcome: ReadOutcome::Refused, wire, declared: Some(declared) });
+                let mut sink = ChoppySink::new();
+                let _ = block_on(send(res, &mut sink)).map_err(|e| format!("send: {e}"))?;
+                out.push(Exchange { outcome: ReadOutcome::Refused, wire: sink.out, declared: Some(declared) });
             }
         }
     }
